@@ -133,6 +133,27 @@ var kubectlDocumented = map[string]map[string]string{
 
 // MonC19 — kubectl-eds commands change only what they document and refuse when their precondition does not hold.
 func MonC19(c *MonCtx) {
+	if strings.HasPrefix(c.Out.Ev.K, "R_") && strings.HasPrefix(c.Out.Ev.B, "mid:") {
+		// a command that landed between the reads and the first write of a reconcile: it is remembered like any other
+		// accepted command, so that the interpretation oracle asks for its documented effect (an accepted command is
+		// not lost because a reconcile was in flight)
+		if c.Out.MidRan && c.Out.CmdErr == nil {
+			parts := strings.SplitN(c.Out.Ev.B, ":", 3)
+			ens, ename := split(parts[2])
+			if e0 := c.Pre.EDS(ens, ename); e0 != nil {
+				canaryRS := ""
+				if e0.Status.Canary != nil {
+					canaryRS = e0.Status.Canary.ReplicaSet
+				}
+				if c.Out.Next.Mem == nil {
+					c.Out.Next.Mem = map[string]string{}
+				}
+				c.Out.Next.Mem["lastcmd"] = parts[1] + "|" + canaryRS
+				c.Antecedent("C19/command-overtook-reconcile:" + parts[1])
+			}
+		}
+		return
+	}
 	if c.Out.Ev.K != "kubectl" {
 		return
 	}
